@@ -21,7 +21,12 @@ func main() {
 		return &vexplore.Scenario{Name: name, Desc: desc, Body: pmlib.ConcBody(sp), Check: pmlib.CheckCompletes,
 			QuickBound: qb, ThoroughBound: tb, Horizon: 30000, Bg: bg}
 	}
+	staticHot2 := pmlib.LoadConf("paths:\n  p:\n    overridePublisher: yes\n    recordPath: /tmp/verif-never/two/%path/%Y-%m-%d_%H-%M-%S-%f\n")
 	scn := []*vexplore.Scenario{
+		mk("two-hot-reloads-vs-attach", "two hot reloads back to back while a publisher attaches (the path calls back into the manager), a reader and an API get arrive; then shutdown",
+			pmlib.ConcSpec{Base: static, Reload: staticHot, Reload2: staticHot2, Name: "p", Publisher: true, Reader: true, APIGet: true}, 2, 3),
+		mk("params-vs-api", "publisher writing key frames with changing in-band parameters while the API reads the path (description copy); mainly for the race pass",
+			pmlib.ConcSpec{Base: static, Name: "p", PrePublish: true, Publisher: true, Params: true, APIGet: true, APIList: true}, 1, 2),
 		mk("recreate-vs-clients", "publisher+reader attached; concurrently: recreating reload, new publisher, new reader, API list, API get; then shutdown",
 			pmlib.ConcSpec{Base: static, Reload: staticCold, Name: "p", PrePublish: true, Publisher: true, Reader: true, APIList: true, APIGet: true}, 1, 2),
 		mk("hot-reload-vs-kick", "publisher+reader attached; concurrently: hot reload, kick of both, describe, API list; then shutdown",
